@@ -22,6 +22,7 @@ func checkC01(p *Prog, r *Report) {
 	ruleReflectHazards(p, a, r, "R-C01-HAZARD", nil)
 	ruleSelfPrintingValues(p, a, r, "R-C01-SELFPRINT")
 	ruleNestingBound(p, a, r, "R-C01-NEST")
+	ruleC01Recursion(p, a, r)
 	ruleDivisionGuards(p, a, r, "R-C01-D", false)
 	ruleC01Panics(p, a, r)
 	ruleResourceCaps(p, a, r, "R-C01-CAP")
